@@ -53,6 +53,17 @@ known_spinfactors = {
 }
 
 
+def _programmatic_name(name):
+    """
+    Name safe to use as a variable name (never a nucleus here).
+    Recent versions of the particle package require the ``is_nucleus`` argument.
+    """
+    try:
+        return programmatic_name(name, False)
+    except TypeError:  # older particle versions: single-argument signature
+        return programmatic_name(name)
+
+
 def sprint(stype):
     if stype in {SpinType.PseudoTensor, SpinType.PseudoScalar}:
         return stype.name[6].lower()
@@ -209,7 +220,7 @@ class GooFitChain(AmplitudeChain):
         header = ""
 
         for name, par in cls.pars.iterrows():
-            pname = programmatic_name(name)
+            pname = _programmatic_name(name)
             if not par.fix:
                 headerlist.append(
                     f'    Variable {pname} {{"{name}", {par.value}, {par.error} }};'
@@ -221,7 +232,7 @@ class GooFitChain(AmplitudeChain):
             mysplines = pars.index[pars.index.str.contains(begin, regex=False)]
             vals = convert(mysplines.str.slice(len(begin))).astype(int)
             series = pd.Series(mysplines, vals).sort_index()
-            return ",\n".join(series.map(lambda x: "        " + programmatic_name(x)))
+            return ",\n".join(series.map(lambda x: "        " + _programmatic_name(x)))
 
         if not GooFitChain.consts.empty:
             splines = GooFitChain.consts.index[
@@ -236,7 +247,7 @@ class GooFitChain(AmplitudeChain):
             for spline in splines:
                 header += (
                     "\n    std::vector<Variable> "
-                    + programmatic_name(spline)
+                    + _programmatic_name(spline)
                     + "_SplineArr {{\n"
                 )
                 header += strip_pararray(GooFitChain.pars, f"{spline}::Spline::Gamma::")
@@ -283,7 +294,7 @@ class GooFitChain(AmplitudeChain):
             min_ = self.__class__.consts.loc[f"{self.name}::Spline::Min", "value"]
             max_ = self.__class__.consts.loc[f"{self.name}::Spline::Max", "value"]
             N = self.__class__.consts.loc[f"{self.name}::Spline::N", "value"]
-            AdditionalVars = programmatic_name(self.name) + "_SplineArr"
+            AdditionalVars = _programmatic_name(self.name) + "_SplineArr"
             return f"""new Lineshapes::GSpline("{name}", {par}_M, {par}_W, {L}, {masses}, FF::BL2,
             {radius}, {AdditionalVars}, Lineshapes::spline_t({min_},{max_},{int(N)}))"""
 
@@ -548,7 +559,7 @@ class GooFitPyChain(AmplitudeChain):
         header = ""
 
         for name, par in cls.pars.iterrows():
-            pname = programmatic_name(name)
+            pname = _programmatic_name(name)
             if not par.fix:
                 headerlist.append(
                     f'{pname} = Variable("{name}", {par.value}, {par.error} )'
@@ -560,7 +571,7 @@ class GooFitPyChain(AmplitudeChain):
             mysplines = pars.index[pars.index.str.contains(begin, regex=False)]
             vals = convert(mysplines.str.slice(len(begin))).astype(int)
             series = pd.Series(mysplines, vals).sort_index()
-            return ",\n".join(series.map(lambda x: "        " + programmatic_name(x)))
+            return ",\n".join(series.map(lambda x: "        " + _programmatic_name(x)))
 
         if not GooFitPyChain.consts.empty:
             splines = GooFitPyChain.consts.index[
@@ -573,7 +584,7 @@ class GooFitPyChain(AmplitudeChain):
             )
 
             for spline in splines:
-                header += "\n" + programmatic_name(spline) + "_SplineArr =  [\n"
+                header += "\n" + _programmatic_name(spline) + "_SplineArr =  [\n"
                 header += strip_pararray(
                     GooFitPyChain.pars, f"{spline}::Spline::Gamma::"
                 )
@@ -622,7 +633,7 @@ class GooFitPyChain(AmplitudeChain):
             min_ = self.__class__.consts.loc[f"{self.name}::Spline::Min", "value"]
             max_ = self.__class__.consts.loc[f"{self.name}::Spline::Max", "value"]
             N = self.__class__.consts.loc[f"{self.name}::Spline::N", "value"]
-            AdditionalVars = programmatic_name(self.name) + "_SplineArr"
+            AdditionalVars = _programmatic_name(self.name) + "_SplineArr"
             return f"""Lineshapes.GSpline("{name}", {par}_M, {par}_W, {L}, {masses}, FF.BL2,
             {radius}, {AdditionalVars}, ({min_},{max_},{int(N)}))"""
 
